@@ -67,11 +67,13 @@ GUARDS_STATIC = {
     "x sdiv y==0": eq(binop("SDIV", X, Y), k(0)),
     "x smod y==0": eq(binop("SMOD", X, Y), k(0)),
     "y==0": eq(Y, k(0)),
+    "x**y==8": eq(binop("EXP", X, Y), k(8)),  # symbolic exponent: the exp abstraction is never refined
     "x/y==s": eq(binop("DIV", X, Y), S),
     "x%y==s": eq(binop("MOD", X, Y), S),
     "x sdiv y==s": eq(binop("SDIV", X, Y), S),
     "x smod y==s": eq(binop("SMOD", X, Y), S),
 }
+EXP_PAIRS = [("x*y==6", "x**y==8"), ("x/y==3", "x**y==8"), ("x**y==8", "x%y==2"), ("x==s", "x**y==8")]
 DIV0_PAIRS = [("y==0&&x==7", g) for g in ("x/y==0", "x%y==0", "x sdiv y==0", "x smod y==0")]
 STATIC_QUICK = ["x==42", "x!=y", "x<3", "x<s0", "x+y==1", "x*y==6", "x/y==3", "x%y==2", "x**2==9", "keccak(x)==keccak(5)", "x==s", "y==5"]
 REFINE_GUARDS = ["x*y==6", "x/y==3", "x%y==2", "x sdiv y==-2", "x*y==s", "x**2==9"]
